@@ -83,6 +83,8 @@ def draw_record(rng, big):
     if not big and rng.random() < 0.08:
         n = rng.randint(16, 80)                    # very short recordings are legal too
     return {"k": rng.randrange(1 << 30), "n": n, "rate": rate,
+            # raw digitiser counts next to records in physical units: amplitude scales far apart are legal
+            "scale": rng.choice([1.0] * 6 + [1e9, 1e-9, 1e6, 1e-12]),
             "deg": rng.choice([0.0, 0.0, 15.0, 270.0]), "meta": {"site": rng.choice(["A", "B"]), "tags": [1, 2]}}
 
 
@@ -176,7 +178,7 @@ def make_record(H, spec):
     comps = []
     for c in range(3):
         x = g.normal(0, 1, n) + (2.0 if c < 2 else 0.5) * np.sin(2 * np.pi * (1.5 + 0.3 * c) * t)
-        comps.append(H.TimeSeries(x, dt))
+        comps.append(H.TimeSeries(x * float(spec.get("scale", 1.0)), dt))
     return H.SeismicRecording3C(*comps, degrees_from_north=spec["deg"], meta=copy.deepcopy(spec["meta"]))
 
 
